@@ -185,6 +185,64 @@ def roundtrip_task(logic, depth, cap, seed):
     return out
 
 
+
+COLLISION_REPLAY = """
+import importlib
+logic = %(logic)r
+M = importlib.import_module('pyModelChecking.' + logic)
+def mk(sh):
+    if sh[0] == 'Bool': return M.Bool(sh[1])
+    if sh[0] == 'AtomicProposition': return M.AtomicProposition(sh[1])
+    return M.alphabet[sh[0]](*[mk(c) for c in sh[1:]])
+def shape(f):
+    n = type(f).__name__
+    if n == 'Bool': return ('Bool', bool(f._value))
+    if n == 'AtomicProposition': return ('AtomicProposition', f.name)
+    return (n,) + tuple(shape(x) for x in f.subformulas())
+a, b = mk(%(a)s), mk(%(b)s)
+print('two different trees:', shape(a), 'and', shape(b))
+print('printed forms:', str(a), '|', str(b), '; a == b:', a == b, '; same hash:', hash(a) == hash(b), '; distinct keys in a set:', len({a, b}))
+bad = []
+if %(pid)r == 'C11':
+    if (a == b) or hash(a) == hash(b) and len({a, b}) == 1: bad.append('different trees compare equal / collapse to one set element')
+else:
+    PM = importlib.import_module('pyModelChecking.' + ('CTLS' if logic == 'CTL' else logic))
+    for x in (a, b):
+        try:
+            back = PM.Parser()(str(x))
+            if shape(back) != shape(x): bad.append('round trip of %%s gives the tree %%s' %% (shape(x), shape(back)))
+        except Exception as e:
+            bad.append('printed form %%r rejected: %%s' %% (str(x), type(e).__name__))
+if bad:
+    print('VIOLATION of %(pid)s:', bad); sys.exit(1)
+print('no violation on this input')
+"""
+
+
+def compositional_check(rep, pid):
+    """is the printed-form grammar a faithful model of __str__?  (compositional printing on every context) + exhaustive height-2 collisions"""
+    from .common import run_replay
+    for t, st, out, secs in pmap(printamb.compositional_task, [(lg,) for lg in ('PL', 'LTL', 'CTL', 'CTLS')]):
+        key = 'printing of %s is compositional (the premise of the printed-form grammar); no two of all height<=2 trees print alike' % t[0]
+        if st != 'ok':
+            rep.inconclusive('%s: %s' % (key, out))
+            continue
+        rep.cov['traces_validated_against_impl'] += out['formulas']
+        ok = not out['non_compositional'] and not out['collisions']
+        rep.obligation(key, 'unsat' if ok else 'sat', 0, 0, dict(exploration='native enumeration', logic=t[0], contexts=out['contexts'], formulas_grouped_by_printed_form=out['formulas'],
+                                                                 non_compositional=out['non_compositional'][:3], collisions=out['collisions'][:3]))
+        hit = False
+        for c in out['collisions'][:4]:
+            path = write_replay(pid, COLLISION_REPLAY % dict(logic=t[0], a=c['a'], b=c['b'], pid=pid))
+            ok_, o_ = run_replay(path)
+            if ok_:
+                hit = True
+                rep.violation('%s: %r is the printed form of two different trees %s / %s' % (key, c['text'], c['a'][:80], c['b'][:80]), path)
+        if out['non_compositional'] and not hit:
+            rep.inconclusive('%s: printing depends on the class of an operand (%s): the printed-form grammar does not model __str__, and no colliding pair was found up to height 2'
+                             % (key, out['non_compositional'][0]))
+
+
 def run_c09(rep, tier):
     rep.assumptions += ['atoms are identifier-style names that are not reserved words; n-ary and/or of arity >=2; documented arities for the other operators',
                         'solver part: printed forms of <= L lexemes (L=10 quick, 12 thorough) for unambiguity, <=5 lexemes for acceptance by the LALR automaton; any nesting depth within that length',
@@ -233,6 +291,7 @@ def run_c09(rep, tier):
                 rep.violation('%s: printed form %r rejected by the real parser' % (key, s), write_replay('C09', body))
             else:
                 rep.inconclusive('%s: witness %r is accepted by the real parser (automaton extraction imprecise)' % (key, s))
+    compositional_check(rep, 'C09')
     nat = 0
     for t, st, out, secs in pmap(roundtrip_task, [(lg, 3, 600 if tier == 'quick' else 4000, sd) for lg in ('PL', 'LTL', 'CTLS', 'CTL') for sd in (1, 2)]):
         key = 'native round trip %s seed %d' % (t[0], t[3])
@@ -571,6 +630,7 @@ def run_c11(rep, tier):
         for pr in out['problems'][:5]:
             body = 'print(%r)\nprint("VIOLATION of C11: %s")\nsys.exit(1)\n' % (pr, pr[0].replace('"', "'"))
             rep.violation('%s: %s: %s' % (key, pr[0], pr[1]), write_replay('C11', body))
+    compositional_check(rep, 'C11')
     crosshair_check(rep, tier)
     rep.cov['bounds'].update(L=L, native_pairs_and_triples=nat)
     rep.cov['programs'] = nat
